@@ -187,6 +187,19 @@ def run(ctx):
                         caps[f0] = {"Numb": str(rng.choice([1, 4, 7])), "Name": "Cap numbered " + f0}
                         tree.write(d + "/.cap/" + f0, "".join(f"{k}={v}\n" for k, v in caps[f0].items()))
                         tree.write(d + "/" + lf_name, text)
+                if i % 7 == 5:
+                    # a .cap file numbers (and names) a file, a later ./ block only renames it: the number stays
+                    f0 = present[0]
+                    if ("./" + f0) not in targets:
+                        k0 = {"Path": "./" + f0, "Name": "Renamed later " + f0}
+                        blocks.append(k0)
+                        text += "Path=./%s\nName=Renamed later %s\n\n" % (f0, f0)
+                        targets.add("./" + f0)
+                        caps[f0] = {"Numb": str(rng.choice([1, 4, 7]))}
+                        if rng.random() < 0.5:
+                            caps[f0]["Name"] = "Cap name " + f0
+                        tree.write(d + "/.cap/" + f0, "".join(f"{k}={v}\n" for k, v in caps[f0].items()))
+                        tree.write(d + "/" + lf_name, text)
                 for f in present:
                     if rng.random() < 0.25 and ("./" + f) not in targets:
                         keys = {}
@@ -206,6 +219,10 @@ def run(ctx):
                     if rng.random() < 0.2:
                         abstracts[f] = "Sidecar abstract of " + f + "\nline two"
                         tree.write(d + "/" + f + ".abstract", abstracts[f] + "\n")
+                    elif rng.random() < 0.12:
+                        # a side file that exists but cannot be read as a file (a directory of that name): the file is listed without it
+                        tree.mkdir(d + "/" + f + ".abstract")
+                        tree.write(d + "/" + f + ".abstract/x", b"x\n")
                 # what the plain handler shows for each file (type, name) = the un-overridden entry
                 rp0 = pyg.request(reqs.build("gopher", d), cfg_plain)
                 plain = {e[2].split("/")[-1]: (e[0], e[1]) for e in parse_gopher(rp0.out) if e[0] != "i"}
